@@ -92,6 +92,11 @@ class ZeroLinearOperator(LinearOperator):
         output_shape = _matmul_broadcast_shape(self.shape, rhs.shape)
         return torch.zeros(*output_shape, dtype=rhs.dtype, device=rhs.device)
 
+    def _permute_batch(self, *dims: int) -> LinearOperator:
+        # the constructor arguments are sizes (ints), which the generic implementation leaves unpermuted
+        sizes = [self.sizes[dim] for dim in dims] + self.sizes[-2:]
+        return self.__class__(*sizes, dtype=self._dtype, device=self._device)
+
     def _prod_batch(self, dim: int) -> LinearOperator:
         sizes = list(self.sizes)
         del sizes[dim]
